@@ -3104,6 +3104,11 @@ impl Interpreter {
                 arguments: args.clone(),
                 new_target: JsValue::Undefined,
                 trampoline_stack: Vec::new(), // Generators run at top level
+                this_value: None,
+                saved_env_stack: Vec::new(),
+                pending_completion: None,
+                exception_value: None,
+                current_constructor: None,
             };
 
             // Create guard for the VM registers
